@@ -54,6 +54,7 @@ DiagCmd ==
     IN IF Ev.outcome # CmdRef(in).outcome
          THEN "CmdContract:" \o shape \o ":" \o feat \o ":expected-" \o CmdRef(in).outcome \o ":got-" \o
               (IF Ev.outcome \in {"ok", "content"} THEN Ev.outcome ELSE "other-exception")
+              \o B(in.extra /\ Ev.meta, ":extra-phrases-with-metacharacters", "")
          ELSE "CmdUnchanged:" \o shape \o ":content-altered"
 
 DiagDoc ==
@@ -61,7 +62,7 @@ DiagDoc ==
     IF Ev.outcome \notin Outcomes THEN "Totality:" \o Ev.fmt \o ":" \o cls \o ":other-exception"
     ELSE IF Ev.outcome \notin Allowed(Ev.fmt, cls, Ev.noise)
       THEN "DocOutcome:" \o Ev.fmt \o ":" \o cls \o B(Ev.noise > 0, ":noise", "")
-           \o B(Ev.ind, ":indented-start-line", "") \o ":got-" \o Ev.outcome
+           \o B(Ev.ind, ":indented-start-line", "") \o B(Ev.bn, ":blank-noise-line", "") \o ":got-" \o Ev.outcome
       ELSE "DocValue:" \o Ev.fmt \o ":" \o cls \o B(Ev.noise > 0, ":noise", "") \o ":value-differs"
 
 SetDiff(res, ref) ==
